@@ -220,7 +220,7 @@ pub fn case_strategy(budget: usize) -> BoxedStrategy<StreamCase> {
 
 pub fn run(ctx: &Ctx) {
     ctx.rule(
-        "cases = generated (configuration without experimental options, PCM input, entry point in {stream single-thread, stream with multithread = true, frame-level}); each case is encoded by four probe binaries built from the working tree with the flacenc feature sets {} (no default features), {log,par,serde}, {log,par,serde,decode}, {log,par,serde,decode,experimental} and by the harness itself; oracle: identical digest (FNV-64 of the emitted bytes, length, frame count) from all five; \
+        "cases = streams of 127..4100 small frames (all three entry points) and generated (configuration without experimental options, PCM input, entry point in {stream single-thread, stream with multithread = true, frame-level}); each case is encoded by four probe binaries built from the working tree with the flacenc feature sets {} (no default features), {log,par,serde}, {log,par,serde,decode}, {log,par,serde,decode,experimental} and by the harness itself; oracle: identical digest (FNV-64 of the emitted bytes, length, frame count) from all five; \
          non-trivial = the stream has at least one frame and the configuration allows a predictive subframe; distinct by (configuration, input)",
     );
     ctx.assume("a feature set that does not compile is reported as inconclusive (exit 2), not as a violation");
@@ -242,6 +242,17 @@ pub fn run(ctx: &Ctx) {
         }
     };
     let next = std::sync::atomic::AtomicUsize::new(0);
+    // streams of many small frames (multi-byte frame numbers on the largest frames): the size estimates
+    // that feed STREAMINFO differ between precomputed (par) and not precomputed (no par) frames
+    {
+        let mf: Vec<StreamCase> = super::common::many_frames_cases(ctx.tier == crate::core::Tier::Thorough).into_iter().filter(|c| c.inp.len <= 300_000).collect();
+        let idx = std::sync::atomic::AtomicUsize::new(0);
+        ctx.enumerate_all("many-frames", threads, mf.len() as u64, |i| mf[i as usize].clone(), |case: &StreamCase| {
+            let k = idx.fetch_add(1, std::sync::atomic::Ordering::SeqCst) % pool.sets.len();
+            let mut set = pool.sets[k].lock().unwrap();
+            evaluate(case, &mut set)
+        });
+    }
     let per = ctx.tier.scale(1500, 10);
     let budget = if ctx.tier == crate::core::Tier::Thorough { 40_000 } else { 12_000 };
     ctx.search("feature-sets", threads, per, &|| case_strategy(budget), |case: &StreamCase| {
